@@ -32,6 +32,7 @@ EXCL = {
     'paste-operators': (False, 'pp:paste-forming-operator'),
     'stringify-apostrophe': (False, 'pp:stringify-escapes-apostrophe'),
     'stringify-multichar-space': (False, 'pp:stringify-drops-space-after-multichar-token'),
+    'stringify-expanded-argument': (False, 'pp:stringify-of-expanded-argument-spacing'),
     'lex-incdec-next-to-number': (False, 'pp:lex-incdec-next-to-number-split'),
     'lex-number-space-dot': (False, 'pp:lex-number-space-dot-merged'),
     'lex-shift-space-assign': (False, 'pp:lex-shift-space-assign-merged'),
@@ -39,6 +40,8 @@ EXCL = {
     'duplicate-D': (False, 'pp:duplicate-D-first-wins'),
     'computed-include': (False, 'pp:computed-include-keeps-comments'),
     'macro-cycles': (False, 'pp:painted-macro-re-expanded-through-nested-call'),
+    'funmacro-bare-self-reference': (False, 'pp:painted-funmacro-reinvoked-after-object-macro'),
+    'funmacro-call-formed-by-expansion': (False, 'pp:funmacro-call-formed-by-argument-expansion-not-invoked'),
     'lex-line-starting-with-lt-after-include': (False, 'pp:line-starting-with-lt-after-include'),
 }
 
@@ -224,6 +227,10 @@ class Gen:
                     bad |= (a == '.' and self._isnum(t)) or (self._isnum(a) and t[:1] == '.')
                 if not allowed('lex-shift-space-assign'):
                     bad |= a in ('<<', '>>', '<', '>') and t in ('=', '==', '<=', '>=')
+                if not allowed('funmacro-call-formed-by-expansion'):
+                    # "F M" where M expands to "( ... )": the invocation only forms when the text is rescanned as
+                    # part of another macro's argument
+                    bad |= a in self.fun and (t in self.fun or t in self.obj or t in self.num or t in self.cfg)
                 if bad:
                     out.append('k')
             out.append(t)
@@ -272,6 +279,8 @@ class Gen:
         r = self.r
         if outer and r.random() < 0.4:
             ok = {'any': ['any', 'str', 'paste'], 'str': ['str', 'paste'], 'paste': ['paste']}[kind]
+            if kind != 'any' and not allowed('stringify-expanded-argument'):
+                ok = []       # a forwarded parameter is macro-expanded first; the inner macro would stringify/paste that
             cands = [p for k in ok for p in outer.get(k, [])]
             if cands:
                 self.f.add('param-passed-to-inner-call')
@@ -307,6 +316,8 @@ class Gen:
                 out += self.call(depth + 1, outer=outer)
             elif y < 0.9:
                 self.f.add('paren-comma-arg')
+                if out and out[-1] in self.fun:
+                    out.append(self.ident())     # no accidental invocation with unchecked arguments
                 out += ['('] + [self.ident(), ',', self.ident()] + [')']
             elif y < 0.95:
                 out.append(r.choice(self.funs() or [self.ident()]))  # bare function-like name as argument
@@ -389,9 +400,15 @@ class Gen:
             elif x < 0.9 and depth < 2:
                 out += self.call(depth + 1, outer=outer)
             elif x < 0.95:
+                if out and out[-1] in self.fun:
+                    out.append(self.ident())     # no accidental invocation with unchecked arguments
                 out += ['(', self.atom_noparen(), r.choice(['+', '*', ',']), self.atom_noparen(), ')']
             else:
-                out.append(r.choice(self.funs() or [self.ident()]))   # bare function-like name: may pull in "( ... )" after the macro
+                cands = self.funs()
+                if not allowed('funmacro-bare-self-reference'):
+                    cands = [c for c in cands if c != self.cur]
+                # bare function-like name: may pull in "( ... )" after the macro
+                out.append(r.choice(cands or [self.ident()]))
                 self.f.add('bare-funname-in-body')
         return out
 
@@ -594,7 +611,10 @@ class Gen:
                     operand = r.choice(INTS + ['zz'])
                 else:
                     self.f.add('if-stacked-unary')
-            return r.choice(['!', '-', '~', '+']) + operand
+            uop = r.choice(['!', '-', '~', '+'])
+            if uop == '-' and not allowed('if-ternary-cond-minus-zero'):
+                operand = r.choice([i for i in INTS if i.strip('0x')])      # "-0" is not recognised as zero by ?:
+            return uop + operand
         if x < 0.64:
             self.f.add('if-ternary')
             if r.random() < 0.3 and allowed('if-ternary-nested'):
